@@ -114,40 +114,40 @@ impl MemoryAreas {
 
   pub fn run_clock_cycles(&mut self, cycles: ClockCycles) {
     // If a DMA is currently active, it updates with the rest of the memory bus
-    // One byte is copied on each machine cycle. This will copy at most that
-    // many bytes (or fewer, if the DMA completes before then).
-    if let Some(dma) = self.oam_dma {
-      let source = dma.source;
-      let mut current_offset = dma.current_offset as usize;
+    // One byte is copied on each machine cycle. The other devices are advanced
+    // one machine cycle at a time while a transfer is running, so that every
+    // byte is read from the bus as it stands at the moment it is copied, no
+    // matter how many cycles are caught up at once.
+    let mut remaining = cycles.as_usize();
+    while remaining >= 4 {
+      let dma = match self.oam_dma {
+        Some(dma) => dma,
+        None => break,
+      };
+      let current_offset = dma.current_offset as usize;
 
-      let bytes_remaining = 0xa0 - current_offset;
-      let cycles_to_copy = cycles.as_usize() / 4;
-      let mut bytes_to_copy = bytes_remaining.min(cycles_to_copy);
+      // copy DMA byte
+      let source = dma.source + current_offset;
+      let value = memory_read_byte(self as *mut MemoryAreas, source as u16);
+      let dest = 0xfe00 + current_offset as u16;
+      memory_write_byte(self as *mut MemoryAreas, dest, value);
 
-      while bytes_to_copy > 0 {
-        // copy DMA byte
-        let source = source + current_offset;
-
-        let value = memory_read_byte(self as *mut MemoryAreas, source as u16);
-        let dest = 0xfe00 + current_offset as u16;
-        memory_write_byte(self as *mut MemoryAreas, dest, value);
-
-        bytes_to_copy -= 1;
-        current_offset += 1;
-      }
-      if current_offset < 0xa0 {
-        self.oam_dma = Some(
+      self.oam_dma = if current_offset + 1 < 0xa0 {
+        Some(
           DMAState {
-            source,
-            current_offset: current_offset as u8,
+            source: dma.source,
+            current_offset: (current_offset + 1) as u8,
           }
-        );
+        )
       } else {
-        self.oam_dma = None;
-      }
+        None
+      };
+
+      self.io.run_clock_cycles(ClockCycles(4), &self.video_ram, &self.oam_ram);
+      remaining -= 4;
     }
 
-    self.io.run_clock_cycles(cycles, &self.video_ram, &self.oam_ram);
+    self.io.run_clock_cycles(ClockCycles(remaining), &self.video_ram, &self.oam_ram);
   }
 }
 
